@@ -70,6 +70,61 @@ def _cases(tier):
     return cases
 
 
+def _hist_cases(tier):
+    strs = [x for x in _strings(ALPHA_Q, 3) if "\n" in x or "\r" in x or "é" in x or "🐍" in x or "\u2028" in x][:: (1 if tier != "quick" else 2)]
+    strs += [p + "a\nb" + q for p in BOUNDARY[:8] for q in BOUNDARY[:8]]
+    out = []
+    for x in strs:
+        for kind in ("del-after", "ins-after", "fix-after", "dict-del", "tuple-ins"):
+            out.append({"s": x, "hist": kind})
+    return out
+
+
+HIST = {  # kind: (container built in run 1, observed value in run 2); S is the string
+    "del-after": ("['x', S, 'tail', 1]", "['x', S, 1]"),
+    "ins-after": ("['x', S, 'tail']", "['x', S, 'new', 'tail']"),
+    "fix-after": ("[S, 'tail']", "[S, 'other']"),
+    "dict-del": ("{'k1': S, 'k2': 2, 'k3': 3}", "{'k1': S, 'k3': 3}"),
+    "tuple-ins": ("(S,)", "(S, 0)"),
+}
+
+
+def _judge_hist(cases):
+    """Two sessions: create, then fix a sibling of the (multi-line / non-ASCII) literal written by the first session."""
+    from ..drivers.inline import run_inline, reexec
+    from ..gen import programs as P
+
+    n = len(cases)
+    src1 = "from inline_snapshot import snapshot\n\n\n" + "\n\n".join(
+        "S%d = %r\nOBS%d = [%s]\n\n\ndef test_%d():\n    assert OBS%d[0] == snapshot()\n" % (
+            i, c["s"], i, HIST[c["hist"]][0].replace("S", "S%d" % i), i, i) for i, c in enumerate(cases))
+    ctx = {"src": src1}
+    r1 = run_inline({"test_something.py": src1}, ["create"])
+    if r1["error"]:
+        return [("internal-error", "run 1: " + r1["error"]["type"] + ": " + r1["error"]["msg"][:300])] * n, ctx
+    mid = r1["files"]["test_something.py"]
+    src2 = mid
+    for i, c in enumerate(cases):
+        src2 = src2.replace("OBS%d = [%s]" % (i, HIST[c["hist"]][0].replace("S", "S%d" % i)), "OBS%d = [%s]" % (i, HIST[c["hist"]][1].replace("S", "S%d" % i)), 1)
+    ctx["src"] = src2
+    r2 = run_inline({"test_something.py": src2}, ["fix"])
+    if r2["error"]:
+        return [("internal-error", "run 2: " + r2["error"]["type"] + ": " + r2["error"]["msg"][:300])] * n, ctx
+    after = r2["files"]["test_something.py"]
+    ctx["after"] = after
+    try:
+        rx = reexec({"test_something.py": after})["test_something.py"]
+    except Exception as e:  # noqa
+        return [("unparsable", str(e))] * n, ctx
+    if rx["module_error"]:
+        return [("reexec-module-error", rx["module_error"])] * n, ctx
+    out = []
+    for i, c in enumerate(cases):
+        t = rx["tests"].get("test_%d" % i, "missing")
+        out.append(None if t is None else ("literal-lost-when-a-sibling-is-edited", "test_%d: %s" % (i, t)))
+    return out, ctx
+
+
 def _plugin_cases(tier):
     s = _strings(ALPHA_Q, 3 if tier == "quick" else 4)
     out = [{"s": x, "pos": "whole", "fmt": "cmd:cat"} for x in s]
@@ -87,6 +142,9 @@ def build(tier, seed):
     for fm, cs in sorted(groups.items()):
         for i in range(0, len(cs), BATCH):
             tasks.append({"cases": cs[i : i + BATCH], "fmt": fm})
+    hc = _hist_cases(tier)
+    for i in range(0, len(hc), 30):
+        tasks.append({"cases": hc[i : i + 30], "fmt": "hist"})
     groups = {}
     for c in _plugin_cases(tier):
         groups.setdefault(c["fmt"], []).append(c)
@@ -159,6 +217,8 @@ def _judge_factory(fmt):
             sys.modules["black"] = None
 
     def judge(cases):
+        if fmt == "hist":
+            return _judge_hist(cases)
         if fmt.startswith("cmd:"):
             return _judge_plugin(cases, fmt)
         return batch.one_file(cases, _site, lambda c: ["DC"] if c["pos"] == "dc" else [], ["create", "fix"], _analyze, pre=pre)
@@ -202,10 +262,10 @@ def _judge_plugin(cases, fmt):
 
 
 def run_case(case):
-    return batch.replay(case, _judge_factory(case["fmt"]))
+    return batch.replay(case, _judge_factory("hist" if "hist" in case else case["fmt"]))
 
 
 def run_task(task):
     return batch.run_batched(task["cases"], _judge_factory(task["fmt"]),
-                             label=lambda c: "ok:%s:%s:%s" % (c["pos"], c["fmt"], "bytes" if "b" in c else "str"),
-                             key=lambda c: repr((c.get("s"), c.get("b"), c["pos"], c["fmt"])))
+                             label=lambda c: "ok:hist:" + c["hist"] if "hist" in c else "ok:%s:%s:%s" % (c["pos"], c["fmt"], "bytes" if "b" in c else "str"),
+                             key=lambda c: repr((c.get("s"), c.get("b"), c.get("pos"), c.get("fmt"), c.get("hist"))))
